@@ -375,7 +375,7 @@ func init() {
 						}
 					}
 				}},
-				{Name: "option-reuse", N: 21, Note: "option VALUES (not just equal options) reused across evaluations: every history of <=3 evaluations whose option lists (length <=2) are drawn from 4 shared option objects; each outcome must equal the outcome with freshly built options", Run: func(i int, r *core.Rec) {
+				{Name: "option-reuse", N: 21, Note: "option VALUES (not just equal options) reused across evaluations: every history of <=3 evaluations whose option lists (length <=2) are drawn from 4 shared option objects; each outcome must equal the outcome of a freshly compiled expression with freshly built options (the compiled expression is shared by the whole history as well)", Run: func(i int, r *core.Rec) {
 					type optDef struct {
 						id string
 						mk func() fhirpath.EvaluateOption
@@ -440,7 +440,14 @@ func init() {
 										fresh = append(fresh, defs[k].mk())
 									}
 									got := outcome(e, withShared)
-									want := outcome(e, fresh)
+									// reference: nothing shared at all - options built afresh and an expression compiled afresh
+									// (a value remembered by the compiled expression is as wrong as one remembered by an option)
+									fe, ferr := fhirpath.Compile(src)
+									if ferr != nil {
+										r.Fail("option-reuse|does-not-compile", core.W{"src": src})
+										continue
+									}
+									want := outcome(fe, fresh)
 									r.Eval()
 									r.Eval()
 									hist = append(hist, name(l))
